@@ -19,8 +19,9 @@ RULE = ('random netlists (1-4 inputs, 1-7 cells of NANGATE/SAED32/SAED90 with 1-
         '(a:b:c) () (a::) (::c) (:b:) (::) ..., INTERCONNECT per (driver, reader) pair, entries shuffled, CELL blocks split '
         '(repeated blocks per instance with different escapings, several top-level blocks, several DELAY sections, blocks '
         'without INSTANCE, unknown instances, TIMINGCHECK/header/comment noise). oracle streams keep one entry per array '
-        'coordinate (ground truth unambiguous); the overlap stream (several outputs per input pin, duplicates, all-zero '
-        'and negative interconnects) is model-vs-code only. distinct = (netlist, branchforks, SDF text); non-trivial = at '
+        'coordinate (ground truth unambiguous; negative IOPATH and INTERCONNECT values, all-zero interconnects and '
+        'interconnects that are not all-zero although max(max(delvals)) == 0 included); the overlap stream (several '
+        'outputs per input pin, duplicates) is model-vs-code only. distinct = (netlist, branchforks, SDF text); non-trivial = at '
         'least 3 entries and at least one non-zero ground-truth coordinate')
 
 TLIBS = ['NANGATE', 'SAED32', 'SAED90']
@@ -88,6 +89,22 @@ def rand_triple(rng, neg=False, p_empty=0.12):
     if r < 0.60: return [val(), val(), val()]
     form = rng.choice(['a::', '::c', ':b:', 'a:b:', ':b:c', 'a::c', '::'])
     return [val() if form[0] == 'a' else None, val() if 'b' in form else None, val() if form.endswith('c') else None]
+
+
+def lexmax_pattern(rng):
+    """value lists that are NOT all-zero although the largest element of the lexicographically larger list is 0
+    (the skip test `max(max(delvals)) == 0` of the tree before D34 dropped them)"""
+    v = lambda: -rng.choice([1, rng.randint(1, 999), rng.randint(1000, 30000)])
+    w = lambda: rng.randint(1, 9000)
+    return rng.choice([[[0, 0, 0], [v(), w(), w()]], [[v(), w(), w()], [0, 0, 0]], [[v(), 0, v()]], [[0, v(), 0]],
+                       [[v(), v(), v()]], [[], [v(), w(), None]], [[None, None, None], [v(), None, w()]],
+                       [[0, v(), w()], [0, 0, 0]], [[v(), v(), 0], [v(), 0, 0]]])
+
+
+def ic_skip_old(vals):
+    """the skip test of the tree before D34 on the generator's value lists"""
+    dv = [tr(vals[0]), tr(vals[-1])]
+    return max(max(dv)) == 0
 
 
 def tr(t):
@@ -251,9 +268,10 @@ def gen_case(rng, kind='oracle', scale_blocks=1.0):
             if overlap and rng.random() < 0.4: reps += 1
             for _ in range(reps):
                 nv = rng.choice([1, 1, 2])
-                neg = overlap and rng.random() < 0.3
+                neg = rng.random() < (0.3 if overlap else 0.2)     # negative delays are legal SDF (audit finding 3 / D34)
                 vals = [rand_triple(rng, neg=neg, p_empty=0.3 if overlap else 0.12) for _ in range(nv)]
-                if overlap and rng.random() < 0.15: vals = [[0, 0, 0]] if rng.random() < 0.5 else [[]]
+                if rng.random() < 0.15: vals = [[0, 0, 0]] if rng.random() < 0.5 else [[]]   # all-zero: skipped, truth 0
+                if rng.random() < 0.12: vals = lexmax_pattern(rng)
                 ic_entries.append({'sig': s, 'drv': info['driver'], 'dst': rd, 'vals': vals})
     # ---- blocks
     blocks = []   # {'insts': [...], 'sections': [[entry]], 'celltype':..}
@@ -340,8 +358,9 @@ def block_key(b):
     return b['insts'][0] if b['insts'] else None
 
 
-def truth_arrays(case, c, only_last=False):
-    """the generator's ground truth; only_last=True: what remains if only the last block of each raw name is kept"""
+def truth_arrays(case, c, only_last=False, old_skip=False):
+    """the generator's ground truth; only_last=True: what remains if only the last block of each raw name is kept;
+    old_skip=True: what remains if INTERCONNECT entries are dropped by the lexicographic-maximum test (before D34)"""
     L = len(c.lines)
     A = np.zeros((3, L, 2, 2)); B = np.zeros((3, L, 2, 2))
     kinds = {g['inst']: g['kind'] for g in case['gates']}
@@ -362,6 +381,7 @@ def truth_arrays(case, c, only_last=False):
                             A[d, l, ip, 0] = r[d] / 1000.0; A[d, l, ip, 1] = f[d] / 1000.0
                 else:
                     sig, dst = e['ic']
+                    if old_skip and ic_skip_old(e['vals']): continue
                     l = resolve_ic(c, case['bf'], sig, tuple(dst))
                     if l is None: continue
                     for ip in (0, 1):
@@ -426,6 +446,11 @@ def eval_case(case):
             if repeated and not isinstance(got, str) and got.shape == keep.shape and np.array_equal(got, keep):
                 obs['class'] = 'repeated-cell-block'
                 obs['explanation'] = 'result equals the ground truth of the LAST block of every instance name only'
+            elif (which == 'interconnects' and not isinstance(got, str) and got.shape == exp.shape
+                  and np.array_equal(got, truth_arrays(case, c, old_skip=True)[1])):
+                obs['class'] = 'interconnect-lexmax-skip'
+                obs['explanation'] = ('result equals the ground truth minus the entries for which max(max(delvals)) == 0 '
+                                      '(lexicographic list maximum) although not all their values are zero')
             else:
                 obs['class'] = 'sdf-annotation'
             return False, obs, ex
@@ -613,6 +638,80 @@ def model_arrays(case, c, mode, bl=None):
     return res
 
 
+# ---- the concrete look-ups (Model/SdfCirc.lean, driver `sdfc`): the model receives the circuit dump and the library's pin table,
+# not tables prepared by the harness; besides the arrays the line index of EVERY entry is compared (audit finding 7)
+def tl_table(case, c):
+    tlib = get_tlib(case['tlib'])
+    rows = []
+    for kind in sorted({n.kind for n in c.nodes}):
+        if kind in tlib.cells:
+            rows += [f'{pct(kind)}:{pct(p)}:{v[0]}' for p, v in tlib.cells[kind][1].items()]
+    return ';'.join(rows) or '~'
+
+
+def model_concrete(case, c, mode, bl=None):
+    """-> [(array | 'raise', [look-up per entry])] for io and ic"""
+    from . import circ
+    if bl is None: bl = enc_blocks(case['blocks'])
+    tail = f"{bl} {tl_table(case, c)} {circ.dump_names(c) or '~'} {circ.dump_net(c)}"
+    out = common.run_driver([f'sdfc {mode} io {tail}', f'sdfc {mode} ic {tail}'])
+    L, res = len(c.lines), []
+    for o in out:
+        f = o.split(' ')
+        if len(f) != 2: raise ValueError(f'sdfc answered {o[:200]!r}')
+        if f[0] == 'raise': a = 'raise'
+        else:
+            a = np.zeros((3, L, 2, 2))
+            if f[0] != '~':
+                for item in f[0].split(','):
+                    k, v = item.split('=')
+                    d, l, ip, op = map(int, k.split('.'))
+                    a[d, l, ip, op] = int(v) / 1000.0
+        res.append((a, [] if f[1] == '~' else None if f[1] == '-' else f[1].split(',')))
+    return res
+
+
+def real_looks(case, c):
+    """the line the REAL loops pick for every entry, observed by running each entry alone with values 1 through the real
+    iopaths()/interconnects(): 'r' raise, 's' nothing annotated (warn), else the line index. -> (io list, ic list | None)"""
+    from kyupy import sdf
+    tlib = get_tlib(case['tlib'])
+    def one(f):
+        try:
+            a = f()
+        except Exception:
+            return 'r'
+        ls = sorted({int(i[1]) for i in np.argwhere(a != 0)})
+        return 's' if not ls else str(ls[0]) if len(ls) == 1 else 'many:' + ','.join(map(str, ls))
+    with quiet():
+        df = sdf.parse(case['sdf'])
+        one3 = [1.0, 1.0, 1.0]
+        io = [one(lambda: sdf.DelayFile('x', {name: [sdf.IOPath(e[0], e[1], one3, one3)]}).iopaths(c, tlib))
+              for name, es in df.cells.items() for e in es]
+        ic = None if df._interconnects is None else [
+            one(lambda: sdf.DelayFile('x', {None: [sdf.Interconnect(e[0], e[1], one3, one3)]}).interconnects(c, tlib))
+            for e in df._interconnects]
+    return io, ic
+
+
+def concrete_corr(ck, case, c, mode, io, ic):
+    try:
+        (mio, lio), (mic, lic) = model_concrete(case, c, mode)
+        rio, ric = real_looks(case, c)
+    except Exception as ex:
+        ck.broken_tie('SDF look-up correspondence (Model/SdfCirc.lean)', f'{type(ex).__name__}: {ex}'[:300], inp=case); return
+    for which, r, m in (('iopaths', io, mio), ('interconnects', ic, mic)):
+        if not same(r, m):
+            ck.broken_tie(f'SDF model with concrete look-ups ({which}, start mode {mode})',
+                          f'real {json.dumps(sparse(r))[:300]} != model {json.dumps(sparse(m))[:300]}', inp=case)
+    for which, r, m in (('iopaths', rio, lio), ('interconnects', ric, lic)):
+        ck.hist['look-ups-compared'] += len(r or [])
+        for x in (r or []): ck.hist['look-up:' + ('line' if x.isdigit() else x[:4])] += 1
+        if r != m:
+            ck.broken_tie(f'SDF look-up per entry ({which}): line index chosen by the real loop vs pinLook/icLook',
+                          f'real {r} != model {m}'[:400], inp=case)
+
+
 def same(real, model):
     if isinstance(real, str) or isinstance(model, str):
         return isinstance(real, str) and isinstance(model, str) and real.startswith('raise') and model == 'raise'
@@ -654,6 +753,11 @@ def describe(case):
     if any(len(b['sections']) > 1 for b in case['blocks']): tags.append('several-DELAY-sections')
     if any('ic' in e for e in ents): tags.append('interconnect')
     if any(v is not None and v < 0 for e in ents for t in e['vals'] for v in t): tags.append('negative-value')
+    ics = [e for e in ents if 'ic' in e]
+    if any(v is not None and v < 0 for e in ics for t in e['vals'] for v in t): tags.append('interconnect-negative-value')
+    if any(ic_skip_old(e['vals']) and any(tr(t) != [0, 0, 0] for t in e['vals']) for e in ics):
+        tags.append('interconnect-not-all-zero-with-lexmax-0')
+    if any(all(tr(t) == [0, 0, 0] for t in e['vals']) for e in ics): tags.append('interconnect-all-zero')
     return ents, tags
 
 
@@ -686,6 +790,8 @@ def run_case(ck, case, kind, mode, notes):
             if not same(r, m):
                 ck.broken_tie(f'SDF model correspondence ({which}, start mode {mode})',
                               f'real {json.dumps(sparse(r))[:300]} != model {json.dumps(sparse(m))[:300]}', inp=case)
+    if mio is not None:
+        concrete_corr(ck, case, c, mode, io, ic)
     if mio is not None and notes.get('__text_mut__', 0):
         try:
             text_generated(ck, case, c, mode, notes['__text_mut__'])
@@ -707,7 +813,10 @@ def run_case(ck, case, kind, mode, notes):
         if not ok:
             cls = obs.get('class', 'sdf-annotation')
             what = ('entries of all but the last CELL block of an instance name (or of all but the last top-level INTERCONNECT '
-                    'block) are not annotated' if cls == 'repeated-cell-block' else 'delay array differs from the ground truth')
+                    'block) are not annotated' if cls == 'repeated-cell-block' else
+                    'INTERCONNECT entries with a negative value whose lexicographically larger value list has maximum 0 are '
+                    'dropped although they are not all-zero' if cls == 'interconnect-lexmax-skip' else
+                    'delay array differs from the ground truth')
             ck.hist['violation:' + cls] += 1
             ck.violation(cls, f"DelayFile.{obs.get('call', 'iopaths')}(): {what}", case, obs, exp)
     else:
@@ -728,6 +837,36 @@ def malformed(ck, mode):
         ck.case(key=('malformed', vals_txt), nontrivial=False, tag='stream:malformed')
         if not (real.startswith('raise') and m == 'raise'):
             ck.broken_tie('SDF model guard (number of value lists)', f'real {real} vs model {m}', inp={'sdf': text})
+
+
+def lookup_raises(ck, mode):
+    """the raise / warn exits of the look-ups (Model/SdfCirc.lean) that the generated streams stay away from: unknown pin
+    (AssertionError of tlib.pin_index), unknown cell of an INTERCONNECT (KeyError), pin index beyond cell.ins (IndexError),
+    a pin on a port, a file without top-level block (TypeError) — whole result and per-entry look-up against the real code"""
+    v1 = 'module top (a, z);\n  input a;\n  output z;\n  wire n;\n  INV_X1 u1 (.I(a), .ZN(n));\n  INV_X1 u2 (.I(n), .ZN(z));\nendmodule\n'
+    v2 = 'module t (a, z);\n  input a;\n  output z;\n  NAND2_X1 u1 (.A1(a), .A2(), .ZN(z));\nendmodule\n'
+    E = lambda a, b, io: dict({'a': a, 'b': b, 'vals': [[1000, 2000, 3000]]}, **({'io': 1} if io else {'ic': 1}))
+    variants = [(v1, [(['u1'], [E('QQ', 'ZN', True)])]), (v1, [(['u1'], [E('I', 'ZN', True)]), (['u2'], [E('(posedge ZN)', 'ZN', True)])]),
+                (v1, [([], [E('ghost/ZN', 'u2/I', False)])]), (v1, [([], [E('u1/QQ', 'u2/I', False)])]),
+                (v1, [([], [E('a/X', 'u1/I', False)])]), (v1, [([], [E('u1/ZN', 'u2/I', False), E('a', 'u1/I', False), E('u2/ZN', 'z', False)])]),
+                (v1, [(['u1'], [E('I', 'ZN', True)])]), (v2, [(['u1'], [E('A1', 'ZN', True), E('A2', 'ZN', True)])]),
+                (v2, [([], [E('a', 'u1/A2', False)]), (['u1'], [E('A1', 'ZN', True)])])]
+    for bf in (False, True):
+        for vi, (ver, bl) in enumerate(variants):
+            blocks = [{'insts': insts, 'sections': [es]} for insts, es in bl]
+            txt = '(DELAYFILE ' + ' '.join(
+                '(CELL (INSTANCE %s) (DELAY (ABSOLUTE %s)))' % (' '.join(b['insts']), ' '.join(
+                    '(%s %s %s (1:2:3))' % ('IOPATH' if 'io' in e else 'INTERCONNECT', e['a'], e['b']) for e in b['sections'][0]))
+                for b in blocks) + ')'
+            case = {'kind': 'lookup', 'tlib': 'NANGATE', 'bf': bf, 'verilog': ver, 'sdf': txt, 'blocks': blocks}
+            ck.case(key=('lookup-raise', vi, bf), nontrivial=False, tag='stream:lookup-exits')
+            try:
+                c = parse_circuit(case)
+                io, ic = real_arrays(case, c)
+                for w, r in (('io', io), ('ic', ic)): ck.hist[f'lookup-exits:{w}:' + (r if isinstance(r, str) else 'array')] += 1
+                concrete_corr(ck, case, c, mode, io, ic)
+            except Exception as ex:
+                ck.broken_tie('SDF look-up exits', f'{type(ex).__name__}: {ex}'[:300], inp=case)
 
 
 def robustness_notes(ck, notes):
@@ -764,6 +903,7 @@ def run(ck):
     run_stream(ck, n, 'oracle', mode, notes)
     run_stream(ck, n // 2, 'overlap', mode, notes)
     malformed(ck, mode)
+    lookup_raises(ck, mode)
     try:
         text_level(ck, HAND_TEXTS, 'hand-written')
         for t in HAND_TEXTS:
@@ -782,8 +922,9 @@ def run(ck):
                     "instance name (theorems none_lost_false_lastWins, lastWins_keeps_last_only), 'merge' = every block kept (none_lost)")
     ck.assumptions += ['grammar/lexer of sdf.py: modelled (Model/SdfText.lean, round-trip theorem) and compared with lark on generated, hand-written and mutated texts; that lark implements the grammar as the model reads it is checked there, not proved',
                        'float(), NumPy fancy assignment and the Verilog reader are exercised through generated texts, not modelled',
-                       'the circuit is abstracted to two tables (line feeding a pin; fork line between two pins) exported from the real '
-                       'Circuit by structural search (reader/reader_pin, fork names), independent of sdf.py',
+                       'the look-ups are compared twice: through two tables (line feeding a pin; fork line between two pins) exported from the '
+                       'real Circuit by structural search (reader/reader_pin, fork names), independent of sdf.py, and through the modelled '
+                       'look-ups pinLook/icLook (Model/SdfCirc.lean) fed with the circuit dump and tlib.cells, per entry (line index / warn / raise)',
                        'several IOPATHs from one input pin to different outputs overwrite each other by design (one delay per line): '
                        'oracle streams keep one entry per coordinate; overlaps are covered by model correspondence only']
     return ck.finish(RULE)
